@@ -212,6 +212,7 @@ type Field struct {
 	T       byte
 	Len     int
 	Val     []byte
+	Skip    bool // set by a caller that does not want this slot's value judged
 }
 
 type Result struct {
